@@ -54,4 +54,4 @@ def replay(ctx, case):
 def probes(ctx):
     from vpbt import gfi_probes
 
-    gfi_probes.run_probes(ctx, ['mask_true_to_false_backward', 'switch_backward_is_branch0', 'scan_regenerate_backward'])
+    gfi_probes.run_probes(ctx, ['mask_true_to_false_backward', 'switch_backward_is_branch0', 'scan_regenerate_backward', 'vmap_zero_length_backward'])
